@@ -1093,7 +1093,10 @@ def specs(draw, names: Names | None = None, *, max_depth=3, hashable=False, key=
         return {"k": k, "a": [draw(sub(hashable=True))], "sp": draw(st.sampled_from(SPELLINGS[k]))}
     if k == "tuple":
         n = draw(st.integers(1, 4))
-        return {"k": "tuple", "a": [draw(sub(hashable=hashable)) for _ in range(n)], "sp": draw(st.sampled_from(SPELLINGS["tuple"]))}
+        g = {"k": "tuple", "a": [draw(sub(hashable=hashable)) for _ in range(n)], "sp": draw(st.sampled_from(SPELLINGS["tuple"]))}
+        if names.adversarial and not has_kind(g, "ref") and not hashable:
+            names.generics.append(g)
+        return g
     if k == "dict":
         g = {"k": "dict", "a": [draw(sub(key=True)), draw(sub())], "sp": draw(st.sampled_from(SPELLINGS["dict"]))}
         if names.adversarial and not has_kind(g, "ref"):
@@ -1176,6 +1179,41 @@ def class_specs(draw, names, *, max_depth, hashable, open_classes, kw):
         names.closed.append((mod, name))
         names.flavour[(mod, name)] = fl
     return spec
+
+
+@st.composite
+def repeated_generic_specs(draw, mods=2):
+    """One parameterised generic G (its leaves need conversion on the wire) used twice in one annotation: nested under a
+    container first and bare afterwards, or the other way round - the shapes in which the type graph meets G again."""
+    names = Names(False)
+    leaf = st.sampled_from(["Decimal", "date", "datetime", "UUID", "int", "float", "timedelta", "Fraction", "str"]).map(S)
+    kind = draw(st.sampled_from(["tuple", "list", "dict", "vtuple", "optional-list", "set"]))
+    if kind == "tuple":
+        g = {"k": "tuple", "sp": "tuple", "a": [draw(leaf) for _ in range(draw(st.integers(1, 3)))]}
+    elif kind == "list":
+        g = {"k": "list", "sp": "list", "a": [draw(leaf)]}
+    elif kind == "dict":
+        g = {"k": "dict", "sp": "dict", "a": [S("str"), draw(leaf)]}
+    elif kind == "vtuple":
+        g = {"k": "vtuple", "sp": "tuple", "a": [draw(leaf)]}
+    elif kind == "set":
+        g = {"k": "frozenset", "sp": "frozenset", "a": [draw(leaf)]}
+    else:
+        g = {"k": "optional", "sp": "Optional", "a": [{"k": "list", "sp": "list", "a": [draw(leaf)]}]}
+    outer = draw(st.sampled_from(["list", "dict", "vtuple", "list-of-list"]))
+    nested = {"list": {"k": "list", "sp": "list", "a": [g]}, "dict": {"k": "dict", "sp": "dict", "a": [S("str"), g]},
+              "vtuple": {"k": "vtuple", "sp": "tuple", "a": [g]},
+              "list-of-list": {"k": "list", "sp": "list", "a": [{"k": "list", "sp": "list", "a": [g]}]}}[outer]
+    pair = [nested, g] if draw(st.booleans()) else [g, nested]
+    shape = draw(st.sampled_from(["tuple", "class", "class-in-list", "dict-of-tuple"]))
+    if shape == "tuple":
+        return {"k": "tuple", "sp": "tuple", "a": pair}
+    if shape == "dict-of-tuple":
+        return {"k": "dict", "sp": "dict", "a": [S("str"), {"k": "tuple", "sp": "tuple", "a": pair}]}
+    fl = draw(st.sampled_from(["dataclass", "namedtuple", "typeddict", "plain"]))
+    c = {"k": "class", "name": names.fresh("R"), "mod": draw(st.integers(0, mods - 1)), "flavour": fl, "future": fl == "plain",
+         "fields": [{"n": "first", "t": pair[0]}, {"n": "second", "t": pair[1]}]}
+    return c if shape == "class" else {"k": "list", "sp": "list", "a": [c]}
 
 
 def root_specs(**kw):
